@@ -13,7 +13,7 @@ from ..strategies import CHUNK_SIZES, bfloat, block_edge_sizes, same_values, log
 
 PROPERTY_ID = "C19"
 LEVEL = "exploration"
-SHARDS = {"quick": 1, "thorough": 16}
+SHARDS = {"quick": 8, "thorough": 16}
 RULE = (
     "Hypothesis draws altitudes z in [0,120] km and pressures P in (0,101325] Pa, boundary-heavy at the "
     "seven layer boundaries (geometric altitude R*H/(R-H) and tabulated base pressures) +-0..8 ulps and at "
@@ -357,6 +357,41 @@ def body_float32(case):
     return labels
 
 
+INT_DTYPES = ["int8", "int16", "int32", "int64", "uint8", "uint16", "uint32", "uint64", "pyint"]
+
+
+def body_integer(case):
+    """Whole-number altitudes / pressures handed over in integer dtypes (signed and unsigned, every width; arrays, numpy
+    scalars, Python ints): the value of the same number given as float64, in both copies."""
+    m1, m2 = _mods()
+    kind, dt = case["kind"], case["dtype"]
+    vals = [int(v) for v in case["values"]]
+    if dt != "pyint":
+        info = np.iinfo(dt)
+        vals = [min(max(v, info.min), info.max) for v in vals]
+    fwd = "us_std_atm_pressure_from_altitude" if kind == "z" else "us_std_atm_altitude_from_pressure"
+    labels = {dt, kind}
+    for mod in (m1, m2):
+        f = getattr(mod, fwd)
+        want = np.asarray(f(np.array(vals, dtype=np.float64)))
+        if dt == "pyint":
+            with cut(f"{fwd}(python int)"):
+                got = np.array([float(np.asarray(f(v))) for v in vals])
+        elif case["scalar"]:
+            with cut(f"{fwd}(numpy {dt} scalar)"):
+                got = np.array([float(np.asarray(f(np.dtype(dt).type(v)))) for v in vals])
+        else:
+            arr = np.array(vals, dtype=dt)
+            keep = arr.copy()
+            with cut(f"{fwd}({dt} array)"):
+                got = np.asarray(f(arr))
+            require(np.array_equal(arr, keep), f"{fwd} modified its {dt} input array")
+        require(same_values(np.asarray(got, dtype=np.float64), want), f"{fwd} of the whole numbers {vals[:4]} given as {dt}{' scalars' if case['scalar'] or dt == 'pyint' else ' array'} is {np.asarray(got).ravel()[:4].tolist()}, given as float64 {want.ravel()[:4].tolist()}")
+    if dt.startswith("uint"):
+        labels.add("unsigned")
+    return labels
+
+
 # ---------------------------------------------------------------------------------------------
 
 z_val = st.one_of(bfloat(0.0, 120.0, specials=Z_SPECIAL), bfloat(0.0, 120.0, specials=Z_SPECIAL), rel_near(Z_SPECIAL[:14], 0.0, 120.0))
@@ -463,6 +498,17 @@ SUBCHECKS = [
         {"quick": 1},
         doc="exhaustive +-8 (quick) / +-64 (thorough) ulp sweep around every tabulated boundary pressure",
         exhaustive=_exh_boundaries_p,
+    ),
+    SubCheck(
+        "integer_inputs",
+        st.one_of(
+            st.fixed_dictionaries({"kind": st.just("z"), "dtype": st.sampled_from(INT_DTYPES), "scalar": st.booleans(), "values": st.lists(st.one_of(st.integers(0, 120), st.sampled_from([0, 11, 20, 32, 47, 51, 71, 84, 85, 86, 120])), min_size=1, max_size=8)}),
+            st.fixed_dictionaries({"kind": st.just("p"), "dtype": st.sampled_from(INT_DTYPES), "scalar": st.booleans(), "values": st.lists(st.one_of(st.integers(1, 101325), st.integers(1, 255), st.sampled_from([1, 101325, 22632, 5474, 868, 110, 66, 3, 255, 256, 65535, 65536])), min_size=1, max_size=8)}),
+        ),
+        body_integer,
+        lambda labels: "unsigned" in labels,
+        {"quick": 400, "thorough": 10000},
+        doc="whole-number altitudes and pressures in every integer dtype (int8..int64, uint8..uint64, Python int; arrays and scalars) == the float64 call, both copies",
     ),
     SubCheck(
         "big_arrays_and_aliasing",
